@@ -249,3 +249,82 @@ proof fn theorem_path_separates(t: int, root: u64, st: Seq<SearchPath>, k: Seq<u
         theorem_path_separates(t, root, st, k, j + 1, sep_lo(t, id, s, lo), sep_hi(t, id, s, hi));
     }
 }
+
+// ---- ORDER: "left of the path" means "smaller in-order number" (the step that joins theorem_path_separates to R2-full) ----
+proof fn lemma_prefix_mono(t: int, id: PageNodeID, a: nat, b: nat)
+    requires tree_ok(t), !node_leaf(t, id), a <= b <= node_len(t, id),
+    ensures prefix(t, id, a) <= prefix(t, id, b),
+    decreases b - a,
+{
+    if a < b {
+        lemma_prefix_step(t, id, (b - 1) as nat);
+        lemma_prefix_mono(t, id, a, (b - 1) as nat);
+    }
+}
+// what a path counts below level j (plus the entry it stands on, if any) never exceeds the size of the subtree at level j
+proof fn lemma_below_bound(t: int, root: u64, st: Seq<SearchPath>, j: int)
+    requires tree_ok(t), path_ok(t, root, st), stack_ok(t, st), lands_on_leaf(t, st), 0 <= j < st.len(),
+    ensures sum_to(t, st, st.len() as int) - sum_to(t, st, j) + one_if(at_entry(t, st)) <= size(t, st[j].id),
+    decreases st.len() - j,
+{
+    reveal(path_ok); reveal_with_fuel(size, 2); reveal_with_fuel(prefix, 2);
+    let n = st.len() as int;
+    let e = st[j];
+    if j == n - 1 {
+        assert(sum_to(t, st, n) == sum_to(t, st, n - 1) + contrib(t, st[n - 1]));
+        assert(node_leaf(t, e.id));
+    } else {
+        lemma_below_bound(t, root, st, j + 1);
+        let nx = st[j + 1];
+        assert(!node_leaf(t, e.id) && same_node(t, nx.id, child_id(t, e.id, e.index as int)));
+        assert(node_len(t, e.id) > 0);
+        assert(e.index < node_len(t, e.id));
+        lemma_same_node_size(t, nx.id, child_id(t, e.id, e.index as int));
+        lemma_prefix_step(t, e.id, e.index as nat);
+        lemma_prefix_mono(t, e.id, (e.index + 1) as nat, node_len(t, e.id));
+        assert(sum_to(t, st, j + 1) == sum_to(t, st, j) + contrib(t, e));
+        assert(size(t, e.id) == prefix(t, e.id, node_len(t, e.id)));
+    }
+}
+// two paths from the same root that agree above level j and sit on the SAME node at level j, p on a smaller slot than s:
+// the entry p stands on (if any) comes strictly before the position s denotes
+proof fn lemma_left_is_before(t: int, root: u64, p: Seq<SearchPath>, s: Seq<SearchPath>, j: int)
+    requires
+        tree_ok(t), path_ok(t, root, p), stack_ok(t, p), lands_on_leaf(t, p), path_ok(t, root, s), stack_ok(t, s), lands_on_leaf(t, s),
+        0 <= j < p.len(), j < s.len(),
+        forall|i: int| 0 <= i < j ==> p[i] == s[i],
+        p[j].id == s[j].id, p[j].index < s[j].index,
+    ensures
+        num(t, p) + one_if(at_entry(t, p)) <= num(t, s),
+{
+    reveal(num); reveal(path_ok); reveal_with_fuel(size, 2); reveal_with_fuel(prefix, 2);
+    let id = p[j].id;
+    lemma_sum_agree(t, p, s, j);
+    lemma_below_bound(t, root, p, j);
+    // num(s) >= what s counts up to and including level j
+    lemma_sum_prefix_le(t, s, j + 1);
+    assert(sum_to(t, s, j + 1) == sum_to(t, s, j) + contrib(t, s[j]));
+    assert(sum_to(t, p, j + 1) == sum_to(t, p, j) + contrib(t, p[j]));
+    if node_leaf(t, id) {
+        // both end here: slots of one leaf
+        assert(j == p.len() - 1) by { if j < p.len() - 1 { assert(!node_leaf(t, p[j].id)); } }
+        assert(sum_to(t, p, p.len() as int) == sum_to(t, p, j + 1));
+    } else {
+        // below level j, p stays inside the child at its slot; s has at least all children up to its own slot before it
+        assert(p.len() > j + 1) by { if p.len() == j + 1 { assert(node_leaf(t, p.last().id)); } }
+        lemma_below_bound(t, root, p, j + 1);
+        let nx = p[j + 1];
+        assert(same_node(t, nx.id, child_id(t, id, p[j].index as int)));
+        lemma_same_node_size(t, nx.id, child_id(t, id, p[j].index as int));
+        assert(s[j].index < node_len(t, id) || (node_len(t, id) == 0 && s[j].index == 0));
+        lemma_prefix_step(t, id, p[j].index as nat);
+        lemma_prefix_mono(t, id, (p[j].index + 1) as nat, s[j].index as nat);
+    }
+}
+proof fn lemma_sum_prefix_le(t: int, st: Seq<SearchPath>, m: int)
+    requires 0 <= m <= st.len(),
+    ensures sum_to(t, st, m) <= sum_to(t, st, st.len() as int),
+    decreases st.len() - m,
+{
+    if m < st.len() { lemma_sum_prefix_le(t, st, m + 1); }
+}
